@@ -147,9 +147,11 @@ int main(int argc, char** argv) {
       SPY0.requested = 0;
       long consumed; DeserializationError e;
       if (op == "jsonfilt") {
-        JsonDocument fd; string f = unhex(fhex); deserializeJson(fd, f, DeserializationOption::NestingLimit(20));
+        // the Filter option is a view of the filter document: it is created first (on a document that says `true`) and the document is filled afterwards
+        JsonDocument fd; fd.set(true); DeserializationOption::Filter fopt(fd.as<JsonVariantConst>());
+        string f = unhex(fhex); deserializeJson(fd, f, DeserializationOption::NestingLimit(20));
         SPY0.markPeak(); size_t base = SPY0.cur;
-        e = deser('j', d, rk, in, consumed, DeserializationOption::Filter(fd.as<JsonVariantConst>()), DeserializationOption::NestingLimit((uint8_t)lim));
+        e = deser('j', d, rk, in, consumed, fopt, DeserializationOption::NestingLimit((uint8_t)lim));
         size_t req = SPY0.requested; long pk = (long)SPY0.peak - (long)base, fin = (long)SPY0.cur - (long)base;
         JsonDocument u(&SPY0); SPY0.requested = 0; long c2;
         SPY0.markPeak(); base = SPY0.cur;
@@ -175,9 +177,10 @@ int main(int argc, char** argv) {
       size_t base = 0;
       if (fhex == "-") e = deser('m', d, rk, in, consumed, DeserializationOption::NestingLimit((uint8_t)lim));
       else {
-        JsonDocument fd; string f = unhex(fhex); deserializeJson(fd, f, DeserializationOption::NestingLimit(20));
+        JsonDocument fd; fd.set(true); DeserializationOption::Filter fopt(fd.as<JsonVariantConst>());
+        string f = unhex(fhex); deserializeJson(fd, f, DeserializationOption::NestingLimit(20));
         SPY0.markPeak(); base = SPY0.cur;
-        e = deser('m', d, rk, in, consumed, DeserializationOption::Filter(fd.as<JsonVariantConst>()), DeserializationOption::NestingLimit((uint8_t)lim));
+        e = deser('m', d, rk, in, consumed, fopt, DeserializationOption::NestingLimit((uint8_t)lim));
       }
       size_t req = SPY0.requested; long pk = (long)SPY0.peak - (long)base, fin = (long)SPY0.cur - (long)base;
       string mp; serializeMsgPack(d, mp);
@@ -244,8 +247,8 @@ int main(int argc, char** argv) {
       if (cfg != cfgBits()) { std::cout << "cfg-mismatch\n"; continue; }
       JsonDocument d(&SPY0), d2(&SPY0); buildDoc(d, spec);
       string a, b; DeserializationError e;
-      if (op == "jsonrt") { serializeJson(d, a); e = deserializeJson(d2, a.data(), a.size(), DeserializationOption::NestingLimit(120)); serializeJson(d2, b); }
-      else { serializeMsgPack(d, a); e = deserializeMsgPack(d2, a.data(), a.size(), DeserializationOption::NestingLimit(120)); serializeMsgPack(d2, b); }
+      if (op == "jsonrt") { serializeJson(d, a); e = deserializeJson(d2, a.data(), a.size(), DeserializationOption::NestingLimit(250)); serializeJson(d2, b); }
+      else { serializeMsgPack(d, a); e = deserializeMsgPack(d2, a.data(), a.size(), DeserializationOption::NestingLimit(250)); serializeMsgPack(d2, b); }
       out = showS(d.as<JsonVariantConst>()) + " " + (a.empty() ? "-" : hexs(a)) + " " + e.c_str() + " " + showS(d2.as<JsonVariantConst>()) + " " + (b.empty() ? "-" : hexs(b)) +
             (d.as<JsonVariantConst>() == d2.as<JsonVariantConst>() ? " eq" : " ne");
     } else if (op == "cross") {
@@ -253,9 +256,9 @@ int main(int argc, char** argv) {
       int cfg; string hex; is >> cfg >> hex;
       if (cfg != cfgBits()) { std::cout << "cfg-mismatch\n"; continue; }
       string in = unhex(hex); JsonDocument d(&SPY0), d2(&SPY0);
-      DeserializationError e = deserializeJson(d, in.data(), in.size(), DeserializationOption::NestingLimit(120));
+      DeserializationError e = deserializeJson(d, in.data(), in.size(), DeserializationOption::NestingLimit(250));
       string mp; serializeMsgPack(d, mp);
-      DeserializationError e2 = deserializeMsgPack(d2, mp.data(), mp.size(), DeserializationOption::NestingLimit(120));
+      DeserializationError e2 = deserializeMsgPack(d2, mp.data(), mp.size(), DeserializationOption::NestingLimit(250));
       out = string(e.c_str()) + " " + showS(d.as<JsonVariantConst>()) + " " + e2.c_str() + " " + showS(d2.as<JsonVariantConst>()) +
             (d.as<JsonVariantConst>() == d2.as<JsonVariantConst>() ? " eq" : " ne");
     } else if (op == "geoq") {
@@ -303,6 +306,8 @@ int main(int argc, char** argv) {
     } else if (op == "mpdoc") {
       // slot-level tie of deserializeMsgPack: mpdoc <limit> <pre 0|1> <fail: - | a<k> | f<k>> <hex>
       int lim, pre; string fail, hex; is >> lim >> pre >> fail >> hex;
+      { string g1; if (is >> g1) { int b_, c_, so_; unsigned long long mx_; is >> b_ >> c_ >> so_ >> mx_;
+          if (atoi(g1.c_str()) != ARDUINOJSON_POOL_CAPACITY || b_ != ARDUINOJSON_INITIAL_POOL_COUNT || c_ != ARDUINOJSON_SLOT_ID_SIZE || so_ != (int)StringNode::sizeForLength(0) || mx_ != (unsigned long long)StringNode::maxLength) { std::cout << "geo-mismatch\n"; continue; } } }
       string in = unhex(hex); Block b(in); CountingReader r{b.p, in.size()};
       {
         Spy L(0); L.logging = true; GLOG.clear();
@@ -323,6 +328,8 @@ int main(int argc, char** argv) {
       // jsondoc <cfg> <limit> <pre 0|1> <fail: - | a<k> | f<k>> <hex>
       int cfg, lim, pre; string fail, hex; is >> cfg >> lim >> pre >> fail >> hex;
       if (cfg != cfgBits()) { std::cout << "cfg-mismatch\n"; continue; }
+      { string g1; if (is >> g1) { int b_, c_, so_; unsigned long long mx_; is >> b_ >> c_ >> so_ >> mx_;
+          if (atoi(g1.c_str()) != ARDUINOJSON_POOL_CAPACITY || b_ != ARDUINOJSON_INITIAL_POOL_COUNT || c_ != ARDUINOJSON_SLOT_ID_SIZE || so_ != (int)StringNode::sizeForLength(0) || mx_ != (unsigned long long)StringNode::maxLength) { std::cout << "geo-mismatch\n"; continue; } } }
       string in = unhex(hex); Block b(in); CountingReader r{b.p, in.size()};
       {
         Spy L(0); L.logging = true; GLOG.clear();
@@ -394,7 +401,7 @@ int main(int argc, char** argv) {
     } else if (op == "reset" || op == "geo" || op == "root" || op == "mem" || op == "memw" || op == "elem" || op == "elemw" || op == "set" || op == "setm" ||
                op == "sete" || op == "add" || op == "addv" || op == "toarr" || op == "toobj" || op == "remi" || op == "remk" || op == "clear" || op == "cleardoc" ||
                op == "copydoc" || op == "swapdoc" || op == "movedoc" || op == "shrink" || op == "obs" || op == "obsx" || op == "failat" || op == "failfrom" || op == "nofail" || op == "ledger" ||
-               op == "hser" || op == "liveq" || op == "deserj" || op == "deserm") {
+               op == "hser" || op == "liveq" || op == "deserj" || op == "deserm" || op == "rd2") {
       // API histories over 3 documents (each with its own spying allocator) and 10 references
       static std::vector<JsonDocument>* docsp = nullptr;
       static std::vector<JsonVariant> refs(10);
@@ -468,6 +475,15 @@ int main(int argc, char** argv) {
       else if (op == "copydoc") { int d, e; is >> d >> e; docs[d] = docs[e]; }
       else if (op == "swapdoc") { int d, e; is >> d >> e; swap(docs[d], docs[e]); }
       else if (op == "shrink") { int d; is >> d; docs[d].shrinkToFit(); }
+      else if (op == "rd2") {
+        // read-only expressions on refs[r][x][y] through the chained proxies of the mutable API (is/as/isNull/size/nesting/operator|/==): none may change the document
+        int r; string t1, a1, t2, a2; is >> r >> t1 >> a1 >> t2 >> a2; string k1 = unhex(a1), k2 = unhex(a2); size_t i1 = (size_t)atol(a1.c_str()), i2 = (size_t)atol(a2.c_str());
+        auto probe = [&](auto&& p) { (void)p.isNull(); (void)p.template is<int>(); (void)p.template as<long long>(); (void)p.size(); (void)p.nesting(); (void)(p | 5); (void)(p == 3);
+                                     (void)p.template as<JsonVariantConst>(); return showS(p.template as<JsonVariantConst>()); };
+        if (t1 == "m" && t2 == "m") out = probe(refs[r][k1][k2]);
+        else if (t1 == "m" && t2 == "e") out = probe(refs[r][k1][i2]);
+        else if (t1 == "e" && t2 == "m") out = probe(refs[r][i1][k2]);
+        else out = probe(refs[r][i1][i2]); }
       else if (op == "deserj" || op == "deserm") { int r, lim; string hex; is >> r >> lim >> hex; string in = unhex(hex);
         DeserializationError e = op == "deserj" ? deserializeJson(refs[r], in.data(), in.size(), DeserializationOption::NestingLimit((uint8_t)lim))
                                                 : deserializeMsgPack(refs[r], in.data(), in.size(), DeserializationOption::NestingLimit((uint8_t)lim));
